@@ -349,8 +349,8 @@ pub fn fixed_class_witnesses() -> Vec<Case> {
 pub fn witnesses() -> Vec<Case> {
     let mut w = vec![
         // expiry is not logged and TTLs are relative: gone live after 600 ms, set again by the redo
-        { let mut c = witness("w-expired-unlogged", &[&[b"SET", b"k", b"v", b"PX", b"300"]], 1, &kd(&[b"k"]));
-          let n = c.ops.len(); c.ops.insert(n - 2, sleep_op(600)); c },
+        { let mut c = witness("w-expired-unlogged", &[&[b"SET", b"k", b"v", b"PX", b"1500"]], 1, &kd(&[b"k"]));
+          let n = c.ops.len(); c.ops.insert(n - 2, sleep_op(1800)); c },   // (1.5 s: the redo side must still see the key under machine load)
         witness("w-tx-select", &[&[b"MULTI"], &[b"SET", b"a", b"1"], &[b"SELECT", b"1"], &[b"SET", b"b", b"2"], &[b"GET", b"b"], &[b"EXEC"],
                                   &[b"APPEND", b"b", b"3"]], 1, &{ let mut d = kd(&[b"a", b"b"]); d.push(V::cmd(&[b"SELECT", b"1"])); d.extend(kd(&[b"a", b"b"])); d.push(V::cmd(&[b"SELECT", b"0"])); d }),
         witness("w-tx-logged", &[&[b"MULTI"], &[b"SET", b"k", b"a"], &[b"RPUSH", b"l", b"x", b"y"], &[b"GET", b"k"], &[b"EXEC"],
